@@ -146,6 +146,10 @@ func (r *armoredReader) Read(p []byte) (int, error) {
 	if len(line) > format.ColumnsPerLine {
 		return 0, r.setErr(errors.New("column limit exceeded"))
 	}
+	if bytes.ContainsAny(line, "\r\n") {
+		// CR and LF are ignored by the base64 decoder, but we don't want any malleability.
+		return 0, r.setErr(errors.New("unexpected newline character"))
+	}
 	r.unread = r.buf[:]
 	n, err := base64.StdEncoding.Strict().Decode(r.unread, line)
 	if err != nil {
